@@ -255,7 +255,52 @@ func (r *queryRoot) String() string {
 	return r.Term.String()
 }
 
+// maxNesting is the number of negations and brackets a condition can be nested in.
+// Parsing and normalising a query recurse once per level, input without a limit
+// can exhaust the stack, which can't be recovered from.
+const maxNesting = 1000
+
+func checkNesting(q string) error {
+	tokens, err := parser.Lex("", strings.NewReader(q))
+	if err != nil {
+		return err
+	}
+	symbols := parser.Lexer().Symbols()
+	negation, bracketOpen, bracketClose, whitespace := symbols["Negation"], symbols["BracketOpen"], symbols["BracketClose"], symbols["whitespace"]
+	// the levels that are open at the current token: the negations directly in front of it
+	// and, for every open bracket, the bracket and the negations in front of it
+	negations, brackets := 0, []int(nil)
+	depth := 0
+	for _, t := range tokens {
+		switch t.Type {
+		case whitespace:
+			continue
+		case negation:
+			negations++
+		case bracketOpen:
+			brackets = append(brackets, negations+1)
+			depth += negations + 1
+			negations = 0
+		case bracketClose:
+			if len(brackets) != 0 {
+				depth -= brackets[len(brackets)-1]
+				brackets = brackets[:len(brackets)-1]
+			}
+			negations = 0
+		default:
+			negations = 0
+		}
+		if depth+negations > maxNesting {
+			return fmt.Errorf("query is nested too deeply (more than %d levels of negations and brackets)", maxNesting)
+		}
+	}
+	return nil
+}
+
 func Parse(q string) (*Query, error) {
+	if err := checkNesting(q); err != nil {
+		return nil, err
+	}
 	root, err := parser.ParseString("", q)
 	if err != nil {
 		return nil, err
